@@ -1264,6 +1264,9 @@ func (i *Input) deserialize(buf *bytes.Buffer) error {
 				return ErrInInvalidTapLeafScriptKeyData
 			}
 
+			if len(kp.Value) == 0 {
+				return ErrInInvalidTapLeafScriptVersion
+			}
 			leafVersion := kp.Value[len(kp.Value)-1]
 			if uint8(controlBlock.LeafVersion) != uint8(leafVersion) {
 				return ErrInInvalidTapLeafScriptVersion
@@ -1290,13 +1293,13 @@ func (i *Input) deserialize(buf *bytes.Buffer) error {
 			if err != nil {
 				return ErrInInvalidTapBip32Derivation
 			}
-			hashes := make([][]byte, nHashes)
-			for i := 0; i < int(nHashes); i++ {
+			hashes := make([][]byte, 0)
+			for i := uint64(0); i < nHashes; i++ {
 				leafHash, err := deserializer.ReadSlice(32)
 				if err != nil {
 					return ErrInInvalidTapBip32Derivation
 				}
-				hashes[i] = leafHash
+				hashes = append(hashes, leafHash)
 			}
 			bip32Derivation := deserializer.ReadToEnd()
 			master, derivationPath, err := readBip32Derivation(bip32Derivation)
